@@ -1069,55 +1069,39 @@ impl super::MainState {
                         'o' => {
                             if mode_set {
                                 if !user.modes.oper {
-                                    if self.oper_config_idxs.contains_key(user_nick) {
-                                        user.modes.oper = true;
-                                        if !user.modes.local_oper {
-                                            state.operators_count += 1;
-                                            // put to applied modes
-                                            set_modes_string.push('o');
-                                        }
-                                    } else {
-                                        self.feed_msg(
-                                            &mut conn_state.stream,
-                                            ErrNoPrivileges481 { client },
-                                        )
-                                        .await?;
-                                    }
+                                    // operator status can be obtained only by OPER command
+                                    self.feed_msg(
+                                        &mut conn_state.stream,
+                                        ErrNoPrivileges481 { client },
+                                    )
+                                    .await?;
                                 }
                             } else if user.modes.oper {
                                 user.modes.oper = false;
                                 if !user.modes.local_oper {
                                     state.operators_count -= 1;
-                                    // put to applied modes
-                                    unset_modes_string.push('o');
                                 }
+                                // put to applied modes
+                                unset_modes_string.push('o');
                             }
                         }
                         'O' => {
                             if mode_set {
                                 if !user.modes.local_oper {
-                                    if self.oper_config_idxs.contains_key(user_nick) {
-                                        user.modes.oper = true;
-                                        if !user.modes.oper {
-                                            state.operators_count += 1;
-                                            // put to applied modes
-                                            set_modes_string.push('O');
-                                        }
-                                    } else {
-                                        self.feed_msg(
-                                            &mut conn_state.stream,
-                                            ErrNoPrivileges481 { client },
-                                        )
-                                        .await?;
-                                    }
+                                    // operator status can be obtained only by OPER command
+                                    self.feed_msg(
+                                        &mut conn_state.stream,
+                                        ErrNoPrivileges481 { client },
+                                    )
+                                    .await?;
                                 }
-                            } else if user.modes.oper {
-                                user.modes.oper = false;
+                            } else if user.modes.local_oper {
+                                user.modes.local_oper = false;
                                 if !user.modes.oper {
                                     state.operators_count -= 1;
-                                    // put to applied modes
-                                    unset_modes_string.push('O');
                                 }
+                                // put to applied modes
+                                unset_modes_string.push('O');
                             }
                         }
                         _ => (),
